@@ -8,13 +8,32 @@ open Dawgs.C19.Spec
 
 structure St where
   graphs : List String := []
-  opts : List String := []           -- current options (codec batch shard)
-  dumpOpts : List String := []       -- options of the fresh dump that created the directory
+  opts : List (String × String) := []      -- current settings of the call, field ↦ value
+  dumpOpts : List (String × String) := []  -- settings of the fresh dump that created the directory
   listing : Listing := {}
   strayPresent : Bool := false
   damaged : Bool := false            -- a recorded fragment was corrupted or removed behind the dump's back
   srcChanged : Bool := false         -- a graph already counted by the checkpoint changed
   expectSame : Bool := false         -- the directory is a finished dump: `final` must answer `same`
+
+def setField (m : List (String × String)) (k v : String) : List (String × String) := (k, v) :: m.filter (·.1 != k)
+def getField (m : List (String × String)) (k : String) (dflt : String) : String := ((m.find? (·.1 == k)).map (·.2)).getD dflt
+
+/-- the fields of a Dump call that bind a resume (properties.jsonl: "a resume never succeeds if the options
+differ"); the salt and the scrub rules only when the interrupted dump was scrubbing. Progress interval and
+callback, output directory, force/resume are not options of the *dump* but of how it is run. -/
+def boundFields (dumpOpts : List (String × String)) : List String :=
+  ["codec", "batch", "shard", "zstdlevel", "driver", "targets", "scrub"] ++
+  (if getField dumpOpts "scrub" "none" == "full" then ["salt", "rules"] else [])
+
+def defaultOf (k : String) : String :=
+  match k with
+  | "zstdlevel" => "3" | "driver" => "fake" | "targets" => "-" | "scrub" => "none" | "rules" => "default" | "salt" => ""
+  | _ => ""
+
+/-- the first bound field in which the resuming call differs from the interrupted one -/
+def changedBound (dumpOpts opts : List (String × String)) : Option String :=
+  (boundFields dumpOpts).find? (fun k => getField dumpOpts k (defaultOf k) != getField opts k (defaultOf k))
 
 def splitArrow (ts : List String) : List String × List String :=
   (ts.takeWhile (· ≠ "=>"), (ts.dropWhile (· ≠ "=>")).drop 1)
@@ -68,7 +87,8 @@ def step (st : St) (ts : List String) : St × String :=
   | ["graph", name], ["ok"] => ({ st with graphs := st.graphs ++ [name] }, "ok")
   | "node" :: _, ["ok"] => (st, "ok")
   | "edge" :: _, ["ok"] => (st, "ok")
-  | "opts" :: o, ["ok"] => ({ st with opts := o }, "ok")
+  | ["opts", c, b, sh], ["ok"] => ({ st with opts := setField (setField (setField st.opts "codec" c) "batch" b) "shard" sh }, "ok")
+  | ["set", k, v], ["ok"] => ({ st with opts := setField st.opts k (if k == "salt" && v == "-" then "" else v) }, "ok")
   | ["plan"], "ok" :: _ => (st, "ok")
   | ["torn"], ["ok"] => (st, "ok")
   | ["stray", name], ["ok"] =>
@@ -104,7 +124,9 @@ def step (st : St) (ts : List String) : St × String :=
         [ (if resumed && st.damaged then none else manifestMeansComplete l),   -- the harness itself damaged a recorded fragment
           if fresh then recordedIntact l else none,
           if resumed && !st.damaged then committedUntouched st.listing l else none,
-          if resumed && completed && st.opts != st.dumpOpts then some "resume-accepted-changed-options" else none,
+          (if resumed && completed then (changedBound st.dumpOpts st.opts).map (fun k => "resume-accepted-changed-options " ++ k) else none),
+          (if resumed && status == ["refused", "identity-changed"] && (changedBound st.dumpOpts st.opts).isNone
+            then some "resume-refused-although-no-bound-option-changed" else none),
           if resumed && completed && st.strayPresent then some "resume-accepted-unexpected-file" else none,
           if resumed && completed && st.damaged then some "resume-accepted-damaged-fragment" else none,
           if resumed && completed && st.srcChanged then some "resume-accepted-changed-source" else none,
